@@ -370,6 +370,11 @@ func maxInt(a, b int) int {
 
 // confPaths enumerates, deterministically, the paths to replay at seam B: it re-runs a small BFS to collect
 // tree nodes (the explorer does not retain them) — the first ConfTraces nodes in BFS order.
+// TreePaths enumerates up to k paths of the scenario's search tree, breadth first to maxDepth.
+func TreePaths(sc Scenario, maxDepth, k int) [][]string {
+	return confPaths(sc, &Result{DepthCompleted: maxDepth}, Options{ConfTraces: k})
+}
+
 func confPaths(sc Scenario, res *Result, opt Options) [][]string {
 	k := opt.ConfTraces
 	if k <= 0 {
